@@ -485,6 +485,22 @@ fn main() {
         srv::runtime,
         |rt, c| rt.block_on(run(c)),
     );
+    // Confidential clients with PKCE made optional: a challenge that WAS sent must still be honoured.
+    // (Only ~15% of the generic configurations are of this kind; a seeded change that let such a code be
+    // redeemed without any verifier was caught on two seeds out of three before this sub-check existed.)
+    let n2 = cx.tier.pick(200, 5_000);
+    cx.prop(
+        "pkce-optional-clients",
+        PropCfg::new(n2).shrink(250),
+        || (oa::arb_cfg(), proptest::collection::vec(arb_step(), 8..22)).prop_map(|(mut cfg, mut steps)| {
+            cfg.public = false;
+            cfg.disable_pkce = true;
+            steps.insert(0, Step::Authorise { pkce: 1 });
+            Case { cfg, steps }
+        }),
+        srv::runtime,
+        |rt, c| rt.block_on(run(c)),
+    );
     // class counts are per case (a class is counted once per history)
     for (c, floor) in [
         ("code-issued", 500),
